@@ -4,7 +4,7 @@
    allocated scopes that are neither a task group's own scope nor a task handle's scope, AExit on such scopes
    or when it is rejected by its guards anyway, AGroupEnter on allocated groups, AFinish only at the task's
    base scope, ARun (HWake t f) only for f = the task's waiter). *)
-From AV Require Import Base Machine ScopeFrames DeliverInv TreeInv DeliverAlive PotentialInv TreeStep KernelInv DeliverThms CycleThms.
+From AV Require Import Base Machine ScopeFrames DeliverInv TreeInv DeliverAlive PotentialInv TreeStep KernelInv DeliverThms CycleThms ActWalk ActThms.
 
 (* I4: a cancelled, hosted scope that some live task still reaches (walk from the task's current scope up the
    parent links through scopes that are neither shielded nor cancelled) has its delivery callback scheduled *)
@@ -198,3 +198,57 @@ Theorem C03_ckif_spin_nonvacuous :
   = [HDeliver 1; HStep 1; HDeliver 1].
 Proof. exact spin_premises. Qed.
 Print Assumptions C03_ckif_spin_nonvacuous.
+
+(* ---- bounded response under ARBITRARY concurrent activity (audit C03 item 1) ----
+   wcyc n s ops s' = one event-loop iteration from s to s': exactly n callbacks are run, each one the head of the
+                     ready queue at that moment (or the queue runs dry), with any number of other ops in between
+   wop t f s o     = o is an act of somebody else (other_act: any API call of a task other than t - enter, exit,
+                     cancel, shield, deadline, task-group and start() calls, sleeps, checkpoints, finishing ... -
+                     scope.cancel() from a callback, time passing, a new root task, a native cancel of another
+                     task) with op_ok, or the run of the callback at the head of the queue unless it resumes t;
+                     every frame of a resumed task is allowed (task start, shielded checkpoint, TaskGroup.__aexit__
+                     wait loop and final checkpoint, start() wait and join, ...)
+   wok0 t f s ops  = every op is a wop until t's wake-up ARun (HWake t f) is run with its future done
+   trace / states  = the (state, op) pairs / the states of the run
+   Statement: t is suspended on the pending future f with no request recorded, has started and reaches the
+   cancelled hosted scope c at the boundary between two iterations.  Then within this iteration and the next
+   t's wake-up is run and raises a cancellation - unless f was completed with a result or an exception first -
+   or at some state of the window t is not effectively cancelled any more (somebody shielded it).
+   Not covered as window ops: acts of t itself (it is suspended), a native Task.cancel() of t, running a
+   callback that is not at the head of the queue. *)
+Theorem C03_cancel_latency_any_activity : forall t f c s ops1 ops2 s1 s2,
+  reach_ok s -> running s <> Some t ->
+  s_cancelled (scopes s c) = true -> s_host (scopes s c) <> None -> reaches s t c ->
+  k_must (tasks s t) = false -> k_started (tasks s t) = true ->
+  k_waiter (tasks s t) = Some f -> f_st (futs s f) = FPend -> wait_ctl (k_ctl (tasks s t)) = true ->
+  wcyc (length (ready s)) s ops1 s1 -> wcyc (length (ready s1)) s1 ops2 s2 -> wok0 t f s (ops1 ++ ops2) ->
+  (exists si, In (si, ARun (HWake t f)) (trace s (ops1 ++ ops2)) /\
+     ((exists o, snd (step si (ARun (HWake t f))) = RExc (ECancel o)) \/
+      (exists v, f_st (futs si f) = FRes v) \/ (exists e, f_st (futs si f) = FExc e))) \/
+  (exists si, In si (states s (ops1 ++ ops2)) /\ eff_cancelled_from (nscope si) si (k_cur (tasks si t)) = false).
+Proof. exact cancel_latency_any_activity_full. Qed.
+Print Assumptions C03_cancel_latency_any_activity.
+
+(* non-vacuity with a task group: host 1 waits in TaskGroup.__aexit__, children 2 and 3 sleep; child 3 cancelled
+   the group scope itself before going to sleep (it is t; the delivery that hit child 2 and the host skipped it).
+   grp_ops1 = [ARun (HWake 2 8); AFinish 2 0; ARun (HWake 1 9); ARun (HDeliver 1)]   (child 2 gets the cancellation
+   and finishes - an API-level act of another task; the host is resumed inside __aexit__ with the cancellation;
+   the delivery callback cancels child 3's sleep), grp_ops2 = [ARun (HTaskDone 2); ARun (HWake 3 11); ARun (HDeliver 1)].
+   (cycle_ok of C03_cancel_latency_le_2_cycles is false here.) *)
+Theorem C03_cancel_latency_any_activity_nonvacuous :
+  let s := final step init grp_pre in
+  reach_ok s /\ running s <> Some 3 /\ s_cancelled (scopes s 1) = true /\ s_host (scopes s 1) <> None /\
+  reaches s 3 1 /\ k_must (tasks s 3) = false /\ k_started (tasks s 3) = true /\ k_waiter (tasks s 3) = Some 11 /\
+  f_st (futs s 11) = FPend /\ wait_ctl (k_ctl (tasks s 3)) = true /\
+  k_ctl (tasks s 1) = CAexitWait 1 4 None /\ k_ctl (tasks s 2) = CSleep 8 0 /\
+  ready s = [HWake 2 8; HWake 1 9; HDeliver 1] /\
+  wok 3 11 s (grp_ops1 ++ grp_ops2) /\
+  exists s1 s2, wcyc (length (ready s)) s grp_ops1 s1 /\ wcyc (length (ready s1)) s1 grp_ops2 s2 /\
+                ready s1 = [HTaskDone 2; HWake 3 11; HDeliver 1].
+Proof. exact grp_premises. Qed.
+Print Assumptions C03_cancel_latency_any_activity_nonvacuous.
+
+Theorem C03_cancel_latency_any_activity_nonvacuous_window :
+  wok0 3 11 (final step init grp_pre) (grp_ops1 ++ grp_ops2).
+Proof. exact grp_wok0. Qed.
+Print Assumptions C03_cancel_latency_any_activity_nonvacuous_window.
